@@ -1,4 +1,263 @@
-import SafeC.Models.Copy
-/-! Property theorems for C16 (see DESIGN.md §4). -/
+import SafeC.Proofs.SortRel
+import SafeC.Proofs.Bsearch
+import SafeC.Proofs.SortSafe
+/-!
+# C16 — "qsort_s sorts and bsearch_s finds, for every array and comparator"
+
+Models: `SafeC/Models/Sort.lean` (`qsortChk` = `_qsort_s_chk` + musl smoothsort at element-index level,
+`bsearchChk` = `_bsearch_s_chk`).  `fx : Fixes` selects the code of the tree (`unrepaired`) or the code
+repaired by `fixes/qsort_s-*.diff`; theorems quantified over `fx` hold for both.
+
+All statements quantify over EVERY array (any length), every element type, and — unless a hypothesis says
+otherwise — EVERY comparator, including comparators whose answer depends on the call number and on the
+positions of their arguments.  A run that ends in `.error` is a run in which the C would touch memory outside
+the array or one of its fixed-size locals (see the model); `qsort_perm`/`qsort_cmp_discipline` speak about
+every run that returns.
+-/
 namespace SafeC.Props.C16
+open SafeC.Sort SafeC.Gen
+
+/-! ## qsort_s: (1) permutation, (2) comparator discipline — every comparator, every `nmemb`, both codes -/
+
+/-- (1) whatever `_qsort_s_chk` returns, the array is a permutation of the original array -/
+theorem qsort_perm (fx : Fixes) (c : Cmp α) (g : Args) (s : St α) (o : Out α Nat)
+    (h : qsortChk fx c g s = .ok o) : o.st.a.toList.Perm s.a.toList :=
+  Array.perm_iff_toList_perm.mp (qsortChk_rel fx c g s o h).perm
+
+/-- (2) every comparator call made by `_qsort_s_chk` is logged with two positions inside the array and
+    the caller's context: the log of the exit state is the entry log extended by such events only -/
+theorem qsort_cmp_discipline (fx : Fixes) (c : Cmp α) (g : Args) (s : St α) (o : Out α Nat)
+    (h : qsortChk fx c g s = .ok o) :
+    ∃ l, o.st.log = l ++ s.log ∧ ∀ ev ∈ l, ev.i < s.a.size ∧ ev.j < s.a.size ∧ ev.ctx = c.ctx :=
+  (qsortChk_rel fx c g s o h).log
+
+/-- the element count never changes (no element lost or duplicated, stated on sizes) -/
+theorem qsort_size (fx : Fixes) (c : Cmp α) (g : Args) (s : St α) (o : Out α Nat)
+    (h : qsortChk fx c g s = .ok o) : o.st.a.size = s.a.size :=
+  (qsortChk_rel fx c g s o h).size
+
+def natCmp : Cmp Nat := ⟨fun _ _ _ x y => if x < y then -1 else if x > y then 1 else 0, 7, true⟩
+def okArgs (n w : Nat) : Args := ⟨false, false, false, n, w, none⟩
+
+/-- non-vacuity: a run that returns, with 13 logged comparisons -/
+example : (match qsortChk unrepaired natCmp (okArgs 6 4) ⟨#[5, 3, 9, 1, 2, 8], [], 0⟩ with
+    | .ok o => o.st.a.toList == [1, 2, 3, 5, 8, 9] && o.st.log.length == 13 && o.ret == 0
+    | .error _ => false) = true := by decide +kernel
+
+/-- an inconsistent comparator (always "greater") returns too, with the elements rearranged -/
+example : (match qsortChk unrepaired ⟨fun _ _ _ _ _ => 1, 0, true⟩ (okArgs 5 1) ⟨#[5, 3, 9, 1, 2], [], 0⟩ with
+    | .ok o => o.st.a.toList != [5, 3, 9, 1, 2] && o.st.a.toList.length == 5
+    | .error _ => false) = true := by decide +kernel
+
+
+/-! ## (3) bounds of qsort_s — what is proved, and what is not
+
+NOT PROVED (full statements; they need the forest-shape invariant of smoothsort: the set bits of `p`, shifted by
+`pshift`, are the orders of Leonardo trees that tile `[0, head]` exactly):
+
+  theorem qsort_safe (c : Cmp α) (g : Args) (s : St α) (fx) (hfx : fx.ctz64 = true) (hv : the entry checks pass)
+      (hn : g.nmemb = s.a.size) (hw : g.nmemb * g.size ≤ 2 ^ 63) : ∃ o, qsortChk fx c g s = .ok o
+  theorem qsort_safe_partial … (fx.ctz64 = false) (hn' : g.nmemb ≤ 18454929) : ∃ o, qsortChk fx c g s = .ok o
+  theorem qsort_sorted (cmp a total preorder) … : the result is ordered (needs, on top: heap order in every tree, ascending roots)
+
+Until then, "no access outside nmemb*size bytes", termination and sortedness of qsort_s rest on the correspondence
+(guard pages on both sides in the harness = `Fault` in the model, compared on every input) and on the oracle.
+Proved below: the two building blocks that touch the array stay inside it, for every comparator. -/
+
+/-- `cycle` on at most 112 positions inside the array returns and keeps the size (no `ar[]` overrun, no position `≥ nmemb`) -/
+theorem cycle_safe (s : St α) (ar : List Nat) (h : ∀ y ∈ ar, y < s.a.size) (hl : ar.length ≤ 112) :
+    ∃ r, cycle s ar = .ok r ∧ r.a.size = s.a.size := cycle_tot s ar h hl
+
+/-- `sift` called on a Leonardo tree of order `pshift` rooted at `head` that lies inside the array
+    (`leo pshift ≤ head + 1`, `head < nmemb`), with `lp[0..pshift]` the Leonardo numbers: every comparison and move is
+    at positions `< nmemb`, no pointer below `base`, `ar[]` not overrun, the call returns — every comparator -/
+theorem sift_in_tree_safe (e : Env α) (s : St α) (n head pshift : Nat) (hs : s.a.size = n) (hh : head < n)
+    (hl : leo pshift ≤ head + 1) (hlp : LpOk e.lp pshift) (hp : pshift ≤ 111) :
+    ∃ r, sift e s head pshift = .ok r ∧ r.a.size = n := sift_safe e s n head pshift hs hh hl hlp hp
+
+/-- non-vacuity: the root of a tree of order 3 (5 elements) at position 4 of a 5-element array -/
+example : leo 3 ≤ 4 + 1 ∧ LpOk #[1, 1, 3, 5, 9] 3 := by
+  refine ⟨by decide, ?_⟩
+  intro i hi
+  have : i = 0 ∨ i = 1 ∨ i = 2 ∨ i = 3 := by omega
+  rcases this with h | h | h | h <;> subst h <;> decide
+
+/-- witness for the defect that makes `qsort_safe` false of the tree as it stands: the bit vector of a heap whose two
+    smallest trees are 33 orders apart (first reached with nmemb = leo 34 + 1 = 18454930): `pntz` as compiled
+    (`__builtin_ctz` on the low 32 bits, `tzcnt`) answers 32, the repaired `ntz` 33.  The failing run itself
+    (18454930 elements) is replayed on the real C and on the compiled model by the check (known finding
+    `qsort_s-ntz-counts-32-bits`). -/
+theorem pntz_witness : pntz unrepaired ⟨2 ^ 33 + 1, 0⟩ = 32 ∧ pntz allFixed ⟨2 ^ 33 + 1, 0⟩ = 33 ∧ leo 34 + 1 = 18454930 := by
+  refine ⟨by decide +kernel, by decide +kernel, by decide +kernel⟩
+
+/-! ## entry checks of `_qsort_s_chk` (doc comment: ESNULLP / ESLEMAX / ESNOSPC) -/
+
+/-- a rejected call: code returned, exactly one str-handler event with that code, nothing touched -/
+def Rejected (r : M (Out α Nat)) (s : St α) (code : Nat) : Prop :=
+  r = .ok ⟨code, none, [(.str, code)], s⟩
+
+theorem qsortChk_null (fx : Fixes) (c : Cmp α) (g : Args) (s : St α)
+    (hn : g.nmemb ≠ 0) (hp : g.baseNull = true ∨ g.cmpNull = true) : Rejected (qsortChk fx c g s) s ESNULLP := by
+  unfold Rejected qsortChk
+  simp [hn, hp]
+
+theorem qsortChk_lemax (fx : Fixes) (c : Cmp α) (g : Args) (s : St α)
+    (hp : g.nmemb = 0 ∨ (g.baseNull = false ∧ g.cmpNull = false)) (hb : g.bos = none)
+    (hl : g.nmemb > RSIZE_MAX_MEM ∨ g.size > RSIZE_MAX_MEM) : Rejected (qsortChk fx c g s) s ESLEMAX := by
+  unfold Rejected qsortChk
+  have h1 : ¬(g.nmemb ≠ 0 ∧ (g.baseNull = true ∨ g.cmpNull = true)) := by
+    rcases hp with h | ⟨h, h'⟩
+    · simp [h]
+    · simp [h, h']
+  simp only [h1, if_false, hb]
+  simp [hl]
+
+/-- repaired code: a product that does not fit the known object size is always rejected -/
+theorem qsortChk_nospc (c : Cmp α) (g : Args) (s : St α) (fx : Fixes) (hfx : fx.ovf = true)
+    (hp : g.nmemb = 0 ∨ (g.baseNull = false ∧ g.cmpNull = false)) (b : Nat) (hb : g.bos = some b)
+    (hl : g.nmemb * g.size > b) : Rejected (qsortChk fx c g s) s ESNOSPC := by
+  unfold Rejected qsortChk
+  have h1 : ¬(g.nmemb ≠ 0 ∧ (g.baseNull = true ∨ g.cmpNull = true)) := by
+    rcases hp with h | ⟨h, h'⟩
+    · simp [h]
+    · simp [h, h']
+  have hs : g.size ≠ 0 := by intro h0; simp [h0] at hl
+  have hd : g.nmemb > b / g.size := by
+    have hpos : 0 < g.size := Nat.pos_of_ne_zero hs
+    exact (Nat.div_lt_iff_lt_mul hpos).mpr hl
+  simp only [h1, if_false, hb, hfx, if_true]
+  simp [hs, hd]
+
+/- FULL statement, false of the tree as it stands:
+   theorem qsortChk_nospc_full (fx) … (hl : g.nmemb * g.size > b) : Rejected (qsortChk fx c g s) s ESNOSPC -/
+
+/-- code as it stands: rejected when the product fits `size_t` -/
+theorem qsortChk_nospc_partial (c : Cmp α) (g : Args) (s : St α) (fx : Fixes) (hfx : fx.ovf = false)
+    (hp : g.nmemb = 0 ∨ (g.baseNull = false ∧ g.cmpNull = false)) (b : Nat) (hb : g.bos = some b)
+    (hl : g.nmemb * g.size > b) (hfit : g.nmemb * g.size < 2 ^ 64) : Rejected (qsortChk fx c g s) s ESNOSPC := by
+  unfold Rejected qsortChk
+  have h1 : ¬(g.nmemb ≠ 0 ∧ (g.baseNull = true ∨ g.cmpNull = true)) := by
+    rcases hp with h | ⟨h, h'⟩
+    · simp [h]
+    · simp [h, h']
+  simp only [h1, if_false, hb, hfx]
+  simp [Nat.mod_eq_of_lt hfit, hl]
+
+example : (4 : Nat) * 7 > 24 ∧ (4 : Nat) * 7 < 2 ^ 64 := by decide
+
+/-- witness (code as it stands): nmemb = 2^62+6, size 4, object of 24 bytes: the product wraps to 24, the call is
+    NOT rejected and sorts 6 elements although nmemb*size exceeds the object by 2^64 bytes -/
+theorem qsortChk_overflow_witness :
+    (match qsortChk unrepaired natCmp ⟨false, false, false, 2 ^ 62 + 6, 4, some 24⟩ ⟨#[5, 3, 9, 1, 2, 8], [], 0⟩ with
+     | .ok o => o.ret == EOK && o.events.isEmpty && o.st.a.toList == [1, 2, 3, 5, 8, 9]
+     | .error _ => false) = true ∧ (2 ^ 62 + 6) * 4 > 24 := by
+  constructor
+  · decide +kernel
+  · decide
+
+/-! ## bsearch_s -/
+
+/-- the entry checks of `_bsearch_s_chk` let the call through -/
+def BsPasses (fx : Fixes) (g : Args) : Prop :=
+  ¬(g.nmemb ≠ 0 ∧ (g.keyNull = true ∨ g.baseNull = true ∨ g.cmpNull = true)) ∧
+  match g.bos with
+  | none => ¬(g.nmemb > RSIZE_MAX_MEM ∨ g.size > RSIZE_MAX_MEM)
+  | some b => if fx.ovf then ¬(g.size ≠ 0 ∧ g.nmemb > b / g.size) else ¬((g.nmemb * g.size) % 2 ^ 64 > b)
+
+theorem bsearchChk_passes (fx : Fixes) (c : BCmp α) (g : Args) (s : St α) (h : BsPasses fx g) :
+    bsearchChk fx c g s = (do
+      let (r, s) ← bsearchLoop c g.nmemb s 0 g.nmemb
+      pure ⟨r, some 0, [], s⟩) := by
+  unfold bsearchChk
+  obtain ⟨h1, h2⟩ := h
+  simp only [h1, if_false]
+  cases hb : g.bos with
+  | none => simp only [hb] at h2; simp [h2]
+  | some b =>
+    simp only [hb] at h2
+    by_cases hf : fx.ovf
+    · simp only [hf, if_true] at h2 ⊢; simp [h2]
+    · have h3 : ¬ ((g.nmemb * g.size) % 2 ^ 64 > b) := by simpa [hf] using h2
+      simp only [hf]
+      simp [h3]
+
+/-- (4) `bsearch_s` on an array whose `nmemb` elements are partitioned w.r.t. the key (`f x = compar(key, x)`:
+    elements comparing less, then equal, then greater — the standard's precondition), consistent comparator:
+    the call returns; a returned position holds an element comparing equal; NULL is returned only if NO element
+    compares equal; every probe is at a position `< nmemb` with the caller's ctx; the array is untouched;
+    errno 0, no handler; at most `steps nmemb` = ⌈log2 nmemb⌉ + 1 probes (see `bsearch_probe_bound`) -/
+theorem bsearch_C16 (fx : Fixes) (f : α → Int) (ctx : Nat) (g : Args) (s : St α)
+    (hv : BsPasses fx g) (hn : g.nmemb = s.a.size) (hp : Partitioned f s.a g.nmemb) :
+    ∃ o, bsearchChk fx (BCmp.pureOf f ctx) g s = .ok o ∧ o.st.a = s.a ∧ o.errno = some 0 ∧ o.events = [] ∧
+      (∀ j, o.ret = some j → ∃ h : j < s.a.size, f s.a[j] = 0) ∧
+      (o.ret = none → ∀ j (h : j < s.a.size), f s.a[j] ≠ 0) ∧
+      (∃ l, o.st.log = l ++ s.log ∧ l.length = o.st.ncmp - s.ncmp ∧ ∀ ev ∈ l, ev.i < g.nmemb ∧ ev.j = ev.i ∧ ev.ctx = ctx) ∧
+      o.st.ncmp - s.ncmp ≤ steps g.nmemb g.nmemb := by
+  obtain ⟨r, hr, hpost, hnone⟩ := bsearchLoop_spec f ctx g.nmemb g.nmemb s 0 g.nmemb (Nat.le_refl _) (by omega) (by omega) hp
+    (by intro j h hj; omega) (by intro j h h1 h2; omega)
+  refine ⟨⟨r.1, some 0, [], r.2⟩, ?_, hpost.arr, rfl, rfl, ?_, ?_, ?_, hpost.cnt _ (Nat.le_refl _)⟩
+  · rw [bsearchChk_passes fx _ g s hv, hr]; rfl
+  · intro j hj; obtain ⟨h, _, h3⟩ := hpost.found j hj; exact ⟨h, h3⟩
+  · intro hn' j h; exact hnone hn' j h (by omega)
+  · obtain ⟨l, e1, e2, e3⟩ := hpost.log
+    exact ⟨l, e1, e3, fun ev hev => by have := e2 ev hev; omega⟩
+
+/-- non-vacuity of `Partitioned`, and a hit -/
+example : Partitioned (fun x : Nat => if 5 < x then -1 else if 5 > x then (1 : Int) else 0) #[1, 2, 3, 5, 8, 9] 6 := by
+  have key : ∀ i j : Fin 6, i ≤ j →
+      (((if 5 < #[1, 2, 3, 5, 8, 9][i] then -1 else if 5 > #[1, 2, 3, 5, 8, 9][i] then (1 : Int) else 0) < 0 →
+        (if 5 < #[1, 2, 3, 5, 8, 9][j] then -1 else if 5 > #[1, 2, 3, 5, 8, 9][j] then (1 : Int) else 0) < 0) ∧
+       ((if 5 < #[1, 2, 3, 5, 8, 9][j] then -1 else if 5 > #[1, 2, 3, 5, 8, 9][j] then (1 : Int) else 0) > 0 →
+        (if 5 < #[1, 2, 3, 5, 8, 9][i] then -1 else if 5 > #[1, 2, 3, 5, 8, 9][i] then (1 : Int) else 0) > 0)) := by decide
+  constructor
+  · intro i j hi hj hij _ h; exact (key ⟨i, hi⟩ ⟨j, hj⟩ hij).1 h
+  · intro i j hi hj hij _ h; exact (key ⟨i, hi⟩ ⟨j, hj⟩ hij).2 h
+
+/-- (4, every comparator) bounds and termination do not depend on the comparator: any answers whatsoever,
+    the loop returns, leaves the array alone, probes only positions `< nmemb`, at most `steps nmemb` times -/
+theorem bsearch_any_comparator (fx : Fixes) (c : BCmp α) (g : Args) (s : St α)
+    (hv : BsPasses fx g) (hn : g.nmemb ≤ s.a.size) :
+    ∃ o, bsearchChk fx c g s = .ok o ∧ o.st.a = s.a ∧ (∀ j, o.ret = some j → j < g.nmemb) ∧
+      o.st.ncmp - s.ncmp ≤ steps g.nmemb g.nmemb ∧
+      ∃ l, o.st.log = l ++ s.log ∧ ∀ ev ∈ l, ev.i < g.nmemb ∧ ev.ctx = c.ctx := by
+  obtain ⟨r, hr, ha, _, hc, hf, l, el, pl⟩ := bsearchLoop_any c g.nmemb s 0 g.nmemb (Nat.le_refl _) (by omega)
+  refine ⟨⟨r.1, some 0, [], r.2⟩, ?_, ha, fun j hj => by have := hf j hj; omega, hc, l, el, fun ev hev => by have := pl ev hev; omega⟩
+  rw [bsearchChk_passes fx _ g s hv, hr]; rfl
+
+/-- the probe bound in closed form: for `nmemb ≥ 2`, `2^(probes-1) ≤ 2(nmemb-1)`, i.e. probes ≤ ⌈log2 nmemb⌉ + 1 -/
+theorem bsearch_probe_bound (n : Nat) (h : 2 ≤ n) : 2 ^ (steps n n - 1) ≤ 2 * (n - 1) := steps_bound n n h
+
+/- FULL statement asked for ("number of comparisons ≤ log2(nmemb)+1" with the integer logarithm), false of the code:
+   theorem bsearch_probe_floor (…) : o.st.ncmp - s.ncmp ≤ Nat.log2 g.nmemb + 1 -/
+
+/-- witness: 3 elements, key larger than all: 3 probes (positions 1, 2, 2), while ⌊log2 3⌋ + 1 = 2.
+    The right branch keeps the probed element (`base = ptry; nmemb -= nmemb/2`), which is probed again. -/
+theorem bsearch_probe_floor_witness :
+    (match bsearchChk unrepaired (BCmp.pureOf (fun x : Nat => if 9 < x then -1 else if 9 > x then (1 : Int) else 0) 0) (okArgs 3 4) ⟨#[1, 2, 3], [], 0⟩ with
+     | .ok o => o.st.ncmp == 3 && o.st.log.map (·.i) == [2, 2, 1] && o.ret == none
+     | .error _ => false) = true ∧ Nat.log2 3 + 1 = 2 := by
+  constructor <;> decide +kernel
+
+/-- code as it stands, object size known: the wrapped product passes the check and the first probe is at
+    position nmemb/2 = 2^61, outside the 4 elements that exist (the C computes `base + size*(nmemb/2)`) -/
+theorem bsearchChk_overflow_witness :
+    (match bsearchChk unrepaired (BCmp.pureOf (fun x : Nat => if 5 < x then -1 else if 5 > x then (1 : Int) else 0) 0)
+      ⟨false, false, false, 2 ^ 62 + 1, 4, some 16⟩ ⟨#[1, 2, 3, 5], [], 0⟩ with
+     | .error (.idx i) => i == 2 ^ 61
+     | _ => false) = true ∧ (2 ^ 62 + 1) * 4 > 16 := by
+  constructor
+  · decide +kernel
+  · decide
+
+/-- repaired code: with a known object size that really holds the array (`bos ≤ size * a.size`), a call that passes the
+    checks has `nmemb ≤ a.size`, so `bsearch_any_comparator` applies: no probe outside the array -/
+theorem bsearchChk_safe_fixed (fx : Fixes) (hfx : fx.ovf = true) (g : Args) (b asize : Nat) (hb : g.bos = some b)
+    (hs : 0 < g.size) (hobj : b ≤ g.size * asize) (hv : BsPasses fx g) : g.nmemb ≤ asize := by
+  obtain ⟨_, h2⟩ := hv
+  simp only [hb, hfx, if_true] at h2
+  have h3 : ¬ g.nmemb > b / g.size := fun h => h2 ⟨Nat.pos_iff_ne_zero.mp hs, h⟩
+  have h4 : b / g.size ≤ asize := by
+    apply Nat.div_le_of_le_mul; exact hobj
+  omega
+
 end SafeC.Props.C16
